@@ -351,7 +351,14 @@ fn do_op(r: &Run, thread: usize, class: u8, keys: u8, op: &Op, durable: bool) {
 
 fn lin_check(c: &Case, ctx: &mut CaseCtx) -> Result<(), Fail> {
     let class = CLASSES[c.class as usize % CLASSES.len()];
-    let run = Arc::new(Run { store: TensorStore::new(), clock: AtomicU64::new(0), tags: AtomicU64::new(0), log: Mutex::new(Vec::new()) });
+    // every other case runs on a store with a Bloom filter in front of get / exists (scan reads the
+    // slabs directly): filter and slabs must never be seen out of step
+    let bloom = c.schedule.first().is_some_and(|x| x & 1 == 1);
+    let store = if bloom { TensorStore::with_bloom_filter(1024, 0.01) } else { TensorStore::new() };
+    if bloom {
+        ctx.label("store with a Bloom filter");
+    }
+    let run = Arc::new(Run { store, clock: AtomicU64::new(0), tags: AtomicU64::new(0), log: Mutex::new(Vec::new()) });
     let mut scripts: Vec<Box<dyn FnOnce() + Send>> = Vec::new();
     for (ti, script) in c.scripts.iter().enumerate() {
         let (run, script, class_i, keys) = (run.clone(), script.clone(), c.class, c.keys);
@@ -362,7 +369,7 @@ fn lin_check(c: &Case, ctx: &mut CaseCtx) -> Result<(), Fail> {
             }
         }));
     }
-    let report = sched::run(scripts, &c.schedule, &["store.emb.put", "store.emb.get", "store.emb.del", "store.delete.checked", "store.meta.get", "store.meta.set", "store.meta.del", "store.cache.put.checked", "store.cache.put.slot", "store.cache.del.unindexed", "store.cache.get.indexed"], Duration::from_millis(60));
+    let report = sched::run(scripts, &c.schedule, &["store.emb.put", "store.emb.get", "store.emb.del", "store.delete.checked", "store.meta.get", "store.meta.set", "store.meta.del", "store.put.applied", "store.cache.put.checked", "store.cache.put.slot", "store.cache.del.unindexed", "store.cache.get.indexed"], Duration::from_millis(60));
     if let Some((t, m)) = report.panics.first() {
         ctx.fail("panic-in-thread", format!("thread {t} panicked: {m}"))?;
     }
